@@ -227,6 +227,20 @@ def observe(label, call, args, t, events, state=None, other_args=None):
                         np.asarray(x)[...] = 777
                     except Exception:  # noqa
                         pass
+    # streaming use: the attitude a recursive update returned is handed back as the next call's a-priori attitude; it is the caller's
+    # array then (an argument), and must come out of the second call as it went in
+    if ("self" in args or "one object" in label) and isinstance(args.get("q"), np.ndarray):
+        a = {k: (v.copy() if (isinstance(v, np.ndarray) and k != "self") else v) for k, v in args.items()}
+        o1 = core.outcome(lambda: call(a))
+        if o1[0] == "ok" and isinstance(o1[1], np.ndarray) and o1[1].shape == args["q"].shape and o1[1].dtype.kind == "f":
+            prev = o1[1]
+            before_ = cid(np.array(prev))
+            b = dict(a, q=prev)
+            t.calls += 1
+            core.outcome(lambda: call(b))
+            if cid(np.array(prev)) != before_:
+                t.fail("C19|%s|mutates-argument-q[the previous result handed back]" % label,
+                       {"callable": label, "note": "the attitude returned by one call, passed as q to the next, was overwritten by it"})
     ps1 = process_state()
     if ps1 != ps0:
         import warnings
